@@ -145,6 +145,34 @@ impl<T> Sender<T> {
         ensures match r { Ok(_) => self.sp_sent(msg), Err(TrySendError::Full(m)) => m == msg, Err(TrySendError::Disconnected(_)) => false }
     { unimplemented!() }
 }
+/// dashmap::mapref::multiple::RefMulti and dashmap::iter::Iter (ASSUMED): the iterator hands out references to bindings of the
+/// map; `sp_rem` shrinks with every item. Which bindings, how often and under which interleavings is dashmap's contract and
+/// NOT modelled (C16 is not applicable).
+#[verifier::external_body]
+#[verifier::reject_recursive_types(K)]
+#[verifier::reject_recursive_types(V)]
+pub struct DashMapRef<'a, K, V> { p: std::marker::PhantomData<&'a (K, V)> }
+impl<'a, K, V> DashMapRef<'a, K, V> {
+    pub uninterp spec fn sp_key(&self) -> Arc<K>;
+    pub uninterp spec fn sp_value(&self) -> TrioArc<ValueEntry<K, V>>;
+    #[verifier::external_body]
+    pub fn key(&self) -> (r: &Arc<K>) ensures *r == self.sp_key() { unimplemented!() }
+    #[verifier::external_body]
+    pub fn value(&self) -> (r: &TrioArc<ValueEntry<K, V>>) ensures *r == self.sp_value() { unimplemented!() }
+}
+#[verifier::external_body]
+#[verifier::reject_recursive_types(K)]
+#[verifier::reject_recursive_types(V)]
+#[verifier::reject_recursive_types(S)]
+pub struct DashMapIter<'a, K, V, S> { p: std::marker::PhantomData<&'a (K, V, S)> }
+impl<'a, K, V, S> DashMapIter<'a, K, V, S> {
+    pub uninterp spec fn sp_rem(&self) -> nat;
+    #[verifier::external_body]
+    pub fn next(&mut self) -> (r: Option<DashMapRef<'a, K, V>>)
+        ensures r.is_some() ==> final(self).sp_rem() < old(self).sp_rem()
+        no_unwind
+    { unimplemented!() }
+}
 // ---- opaque field types of `Inner` (shared state behind `&self`): only construction is specified ----
 #[verifier::external_body]
 #[verifier::reject_recursive_types(T)]
@@ -1018,6 +1046,164 @@ impl<K: Hash + Eq, V: Clone, S> Cache<K, V, S> {
         let hash = self.base.hash(&key);
         let key = Arc::new(key);
         self.insert_with_hash(key, hash, value)
+    }
+//@@ END
+}
+
+// ---------------- src/sync/mapref.rs and src/sync/iter.rs: iteration over the concurrent cache (C01, C05, C06, C07) ----------------
+//@@ STRUCT file=src/sync/mapref.rs name=EntryRef
+#[verifier::reject_recursive_types(K)]
+#[verifier::reject_recursive_types(V)]
+pub struct EntryRef<'a, K, V>(DashMapRef<'a, K, V>);
+//@@ END
+impl<'a, K, V> EntryRef<'a, K, V> {
+    /// the map binding this reference stands for
+    pub closed spec fn sp_ref(&self) -> DashMapRef<'a, K, V> { self.0 }
+}
+impl<'a, K, V> EntryRef<'a, K, V>
+where
+    K: Eq + Hash,
+{
+//@@ FN file=src/sync/mapref.rs owner=EntryRef name=new tags=C01
+    pub(crate) fn new(map_ref: DashMapRef<'a, K, V>) -> /*@+*/(r:/*@-*/ Self/*@+*/)/*@-*/
+        ensures r.sp_ref() == map_ref //@ [C01]
+    {
+        Self(map_ref)
+    }
+//@@ END
+
+//@@ FN file=src/sync/mapref.rs owner=EntryRef name=key tags=C01
+    pub fn key(&self) -> /*@+*/(r:/*@-*/ &K/*@+*/)/*@-*/
+        ensures *r == *self.sp_ref().sp_key() //@ [C01]
+    {
+        self.0.key()
+    }
+//@@ END
+
+//@@ FN file=src/sync/mapref.rs owner=EntryRef name=value tags=C01
+    pub fn value(&self) -> /*@+*/(r:/*@-*/ &V/*@+*/)/*@-*/
+        // C01: the value handed out is the value of the binding the iterator yielded
+        ensures *r == self.sp_ref().sp_value()@.value //@ [C01]
+    {
+        &self.0.value().value
+    }
+//@@ END
+
+//@@ FN file=src/sync/mapref.rs owner=EntryRef name=pair tags=C01
+    pub fn pair(&self) -> /*@+*/(r:/*@-*/ (&K, &V)/*@+*/)/*@-*/
+        ensures *r.0 == *self.sp_ref().sp_key(), *r.1 == self.sp_ref().sp_value()@.value //@ [C01]
+    {
+        (self.key(), self.value())
+    }
+//@@ END
+}
+impl<'a, K, V> std::ops::Deref for EntryRef<'a, K, V>
+where
+    K: Eq + Hash,
+{
+    type Target = V;
+
+//@@ FN file=src/sync/mapref.rs owner=std :: ops :: Deref for EntryRef name=deref tags=C01
+    fn deref(&self) -> /*@+*/(r:/*@-*/ &V/*@+*/)/*@-*/
+        ensures *r == self.sp_ref().sp_value()@.value //@ [C01]
+    {
+        self.value()
+    }
+//@@ END
+}
+
+//@@ STRUCT file=src/sync/iter.rs name=Iter
+#[verifier::reject_recursive_types(K)]
+#[verifier::reject_recursive_types(V)]
+#[verifier::reject_recursive_types(S)]
+pub struct Iter<'a, K, V, S> {
+    cache: &'a BaseCache<K, V, S>,
+    map_iter: DashMapIter<'a, K, V, S>,
+}
+//@@ END
+impl<'a, K, V, S> Iter<'a, K, V, S> {
+    /// the expiry durations of the cache the iterator filters with are within the builder's 1000-year limit (= `cfg_ok`,
+    /// written out because a type invariant must not add trait bounds); established by `Iter::new`'s precondition
+    #[verifier::type_invariant]
+    pub closed spec fn inv(&self) -> bool {
+        &&& (self.cache.inner.time_to_live.is_some() ==> dur_ns(self.cache.inner.time_to_live.unwrap()) <= max_dur_ns())
+        &&& (self.cache.inner.time_to_idle.is_some() ==> dur_ns(self.cache.inner.time_to_idle.unwrap()) <= max_dur_ns())
+    }
+    pub closed spec fn sp_cache(&self) -> BaseCache<K, V, S> { *self.cache }
+//@@ FN file=src/sync/iter.rs owner=Iter name=new tags=C01,C05,C06
+    pub(crate) fn new(cache: &'a BaseCache<K, V, S>, map_iter: DashMapIter<'a, K, V, S>) -> /*@+*/(r:/*@-*/ Self/*@+*/)/*@-*/
+        requires cache.inner.cfg_ok(), //@
+        ensures r.sp_cache() == *cache //@ [C01]
+    {
+        Self { cache, map_iter }
+    }
+//@@ END
+}
+impl<'a, K: Eq + Hash, V, S: BuildHasher + Clone> vstd::std_specs::iter::IteratorSpecImpl for Iter<'a, K, V, S> {
+    /// vstd's prophetic for-loop protocol is not used for this iterator (its laws are conditional on this flag)
+    open spec fn obeys_prophetic_iter_laws(&self) -> bool { false }
+    uninterp spec fn remaining(&self) -> Seq<Self::Item>;
+    uninterp spec fn will_return_none(&self) -> bool;
+    uninterp spec fn decrease(&self) -> Option<nat>;
+    uninterp spec fn peek(&self, i: int) -> Option<Self::Item>;
+}
+impl<'a, K, V, S> Iterator for Iter<'a, K, V, S>
+where
+    K: Eq + Hash,
+    S: BuildHasher + Clone,
+{
+    type Item = EntryRef<'a, K, V>;
+
+//@@ FN file=src/sync/iter.rs owner=Iterator for Iter name=next tags=C01,C05,C06,C07 rewrites=forbyref2loop
+    fn next(&mut self) -> /*@+*/(r:/*@-*/ Option<Self::Item>/*@+*/)/*@-*/
+        ensures //@
+            final(self).sp_cache() == old(self).sp_cache(), //@
+            // C01 / C05 / C06 / C07: what iteration yields is a binding the map iterator handed out, and its entry is neither expired
+            // nor older than the invalidate_all watermark at the clock reading taken for this very item
+            match r { //@ [C01,C05,C06,C07]
+                Some(er) => ({ let i = old(self).sp_cache().inner; //@
+                    !sp_hidden(i.time_to_live, i.time_to_idle, i.sp_valid_after(), er.sp_ref().sp_value(), i.sp_now()) }), //@
+                None => true, //@
+            }, //@
+    {
+        proof { use_type_invariant(&*self); } //@
+        loop
+            invariant self.cache == old(self).cache, self.cache.inner.cfg_ok(), //@
+            decreases self.map_iter.sp_rem(), //@
+        { match self.map_iter.next() { Some(map_ref) => {
+            if !self.cache.is_expired_entry(map_ref.value()) {
+                return Some(EntryRef::new(map_ref));
+            }
+        } None => break, } }
+
+        None
+    }
+//@@ END
+}
+impl<K, V, S> Inner<K, V, S> {
+    /// DashMap::iter through `&self`: ASSUMED
+//@@ SIG file=src/sync/base_cache.rs owner=Inner name=iter
+    #[verifier::external_body]
+    pub fn iter(&self) -> (r: DashMapIter<'_, K, V, S>) { unimplemented!() }
+//@@ END
+}
+impl<K, V, S> BaseCache<K, V, S> {
+//@@ FN file=src/sync/base_cache.rs owner=BaseCache name=iter tags=C01,C15
+    pub(crate) fn iter(&self) -> /*@+*/(r:/*@-*/ Iter<'_, K, V, S>/*@+*/)/*@-*/
+        requires self.inner.cfg_ok(), //@
+        ensures r.sp_cache() == *self //@ [C01,C15]
+    {
+        Iter::new(self, self.inner.iter())
+    }
+//@@ END
+}
+impl<K, V, S> Cache<K, V, S> {
+//@@ FN file=src/sync/cache.rs owner=Cache name=iter tags=C01,C15
+    pub fn iter(&self) -> /*@+*/(r:/*@-*/ Iter<'_, K, V, S>/*@+*/)/*@-*/
+        requires self.sp_base().inner.cfg_ok(), //@
+        ensures r.sp_cache() == self.sp_base() //@ [C01,C15]
+    {
+        self.base.iter()
     }
 //@@ END
 }
